@@ -215,6 +215,10 @@ def run(repo, rep):
     # separators (interpreted layouts: nothing is dropped, duplicated or replaced when a separator or a group breaks)
     from . import layoutmodel
     rep.floor('C03.e', layoutmodel.run(repo, rep, {'C04': 'C03.e'}), 1)
+    # C03.f: a comment stays a comment in every layout: wherever the comment builder breaks a text (or leaves a line end of the text
+    # itself in place), the continuation starts with '#' - otherwise its words are code at the widths where it wraps (home: C09.b)
+    from . import docmodel as _dm
+    rep.floor('C03.f', _dm.comments(repo, rep, 'C03.f'), 1)
 
     # ---------------------------------------------------------------- C03.d one set of settings for every variant of a value
     # the flat and the broken rendering of a value are produced under contexts that differ at most in what the context model
